@@ -27,6 +27,13 @@ add("C14", "model_checking", "Admission.tla models setup/findStep/Kahn's algorit
     "the real NewExecutionGraph is run on every edge set on 2-4 steps, loop-free 5-step sets (quick: 20000 sampled, thorough: all 2^20), random graphs up to 40 steps and the real agent.Run on samples, and TLC judges every record with the same operator",
     REC_NOTE, "TLA+ model of the admission algorithm vs declarative definition (TLC) + exhaustive enumeration of graphs through the real code judged by TLC", "admit", "5/C14")
 
+add("C17", "model_checking", "Auth.tla models the chain prefixChecker -> BasicAuth -> TokenAuth -> handler over an atom grammar of Authorization headers; TLC checks MustPass/MustDeny on all 32256 abstract requests; "
+    "every abstract request x 4 methods (107776) is rendered and sent through the real middleware.Setup + SetupGlobalMiddleware, and TLC judges each record with the same MustPass/MustDeny and compares the outcome with the model's decision (drift)",
+    REC_NOTE + "; secrets are three fixed strings, the header grammar is the listed scheme x separator x payload classes", "TLA+ pipeline model (TLC, exhaustive over the abstract request space) + the same space replayed through the real middleware chain, records judged by TLC", "auth", "5/C17")
+add("C10", "model_checking", "RetryGraph.tla models the frontier walk of setupRetry and TLC proves it equal to the declarative closure ReRun on every 3-step DAG x consistent status vector; Consistent is an invariant of StepSched (every vector a run can leave behind); "
+    "the real NewExecutionGraphForRetry is run on every DAG x vector (2-3 steps quick, 4 thorough) and real retry runs (first run stopped/failed/killed-at-move, then retried through the gates) are validated by SchedObserve's C10 clauses",
+    SCHED_NOTE, "TLA+ model of the retry walk vs declarative closure (TLC) + exhaustive records and gate-driven retry runs of the real scheduler judged by TLC", "sched", "5/C10")
+
 ALL = ["C%02d" % i for i in range(1, 21)]
 for p in ALL:
     if p not in CHECKS:
@@ -47,8 +54,10 @@ def main():
         },
         "engines": [
             {"name": "sched", "path": "harness/rig/sched.go + spec/StepSched.tla + spec/SchedObserve.tla + spec/StepSchedTrace.tla",
-             "serves_properties": ["C01", "C02", "C03", "C04", "C05", "C15"],
+             "serves_properties": ["C01", "C02", "C03", "C04", "C05", "C10", "C15"],
              "kind_free_text": "gate controller + scripted executor around the real scheduler.Schedule/Signal; TLC model checking, behaviour export, trace validation"},
+            {"name": "auth", "path": "harness/rig/auth.go + spec/Auth.tla + spec/AuthObserve.tla", "serves_properties": ["C17"],
+             "kind_free_text": "request renderer around the real middleware chain (httptest); records judged by TLC"},
             {"name": "admit", "path": "harness/rig/admit.go + spec/Admission.tla + spec/AdmissionObserve.tla", "serves_properties": ["C14"],
              "kind_free_text": "graph enumerator around scheduler.NewExecutionGraph / agent.Run; records judged by TLC"},
         ],
